@@ -260,11 +260,28 @@ class Input(ContextManager["Input"]):
             current_bytes = []
             while self.unprocessed_bytes:
                 current_bytes.append(self.unprocessed_bytes.pop(0))
-                e = events.get_key(
-                    current_bytes,
-                    getpreferredencoding(),
-                    keynames=self.keynames,
-                )
+                try:
+                    e = events.get_key(
+                        current_bytes,
+                        getpreferredencoding(),
+                        keynames=self.keynames,
+                    )
+                except UnicodeDecodeError:
+                    # the last byte does not continue what came before it (Escape
+                    # followed by a non-ASCII character, say): report what came
+                    # before as a key and start again at that byte
+                    e = None
+                    while e is None and len(current_bytes) > 1:
+                        self.unprocessed_bytes.insert(0, current_bytes.pop())
+                        e = events.get_key(
+                            current_bytes,
+                            getpreferredencoding(),
+                            keynames=self.keynames,
+                            full=True,
+                        )
+                    if e is None:
+                        raise
+                    return e
                 if e is None and not self.unprocessed_bytes:
                     # the rest of this keypress may have been cut off by the read size
                     self._nonblocking_read()
